@@ -837,11 +837,18 @@ func (s *Syncer) apply(state DPSyncerState) error {
 	if err != nil {
 		return err
 	}
-	err = s.bpfMaglevEps.ApplyAllChanges()
+	// Likewise the Maglev lookup tables: a frontend flagged for Maglev drops every packet that finds no
+	// table entry, so write new and changed entries before the frontends start to use them...
+	err = s.bpfMaglevEps.ApplyUpdatesOnly()
 	if err != nil {
 		return err
 	}
 	err = s.bpfSvcs.ApplyUpdatesOnly()
+	if err != nil {
+		return err
+	}
+	// ...and remove tables only once no frontend refers to them any more.
+	err = s.bpfMaglevEps.ApplyDeletionsOnly()
 	if err != nil {
 		return err
 	}
